@@ -7,6 +7,11 @@
 #   e == NULL, e != NULL   is_null
 #   f(e) (listed helper)   c_f e
 #   for(;c;step);          fuelled loop c_<name>_loopN (fuel parameter of the enclosing definition)
+#   for(init;c;) { body }  init first, then a fuelled loop over the one local the body assigns; a `return e` inside the body ends
+#                          the function: the loop yields inr e (returned) or inl local (condition false)
+#   tbl->root              an extra parameter `root` of the definition (the table object itself is not in the heap model)
+#   a condition over non-node parameters only (name == NULL || namesize == 0)   an extra boolean parameter guardN
+#   T *x; (no initialiser)  x := null until assigned
 #   f(e) (f itself)        recursion on explicit fuel: Fixpoint c_f (fuel) ..., nofuel when it runs out
 #   free(p)                free_node p       Crash when p is NULL / not allocated (double free); afterwards p is not allocated
 #   free(p->name|data)     dropped: the payload buffers are not part of this heap model
@@ -23,8 +28,8 @@
 import os, re, json, subprocess
 
 FUNCS = ['is_red', 'flip_color', 'rotate_left', 'rotate_right', 'move_red_left', 'move_red_right', 'fix',
-         'find_min', 'find_max', 'remove_min', 'put_obj']
-KEYED = ('put_obj',)           # translated inside a Section over kc : positive -> Z (the comparator's answer for the searched key at a node)
+         'find_min', 'find_max', 'remove_min', 'put_obj', 'find_obj']
+KEYED = ('put_obj', 'find_obj')           # translated inside a Section over kc : positive -> Z (the comparator's answer for the searched key at a node)
 PAYLOAD_FIELDS = ('name', 'data', 'namesize', 'datasize')
 PAYLOAD = ('name', 'data')      # fields of the node object that are not part of the heap model
 COUNTERS = re.compile(r'^_q_treetbl_\w+_cnt$')
@@ -62,6 +67,8 @@ class Fn:
         self.params = [c['name'] for c in allp if 'qtreetbl_obj_t *' in c['type']['qualType']]
         self.opaque = set(self.all_params) - set(self.params)
         self.ints = set()
+        self.extra = []        # extra parameters (name, type) introduced by the translation
+        self.retfmt = 'ret %s'
         self.body = [c for c in decl['inner'] if c.get('kind') == 'CompoundStmt'][0]
         self.ret_ptr = '*' in decl['type']['qualType'].split('(')[0]
         self.n = 0
@@ -94,6 +101,15 @@ class Fn:
             if nm in self.locals or nm in self.ints:
                 return ('p', nm)
             raise Unsupported('reference to %s in %s' % (nm, self.name))
+        if k == 'MemberExpr' and n.get('name') == 'root' and strip(n['inner'][0]).get('referencedDecl', {}).get('name') in self.opaque:
+            if ('root', 'ptr') not in self.extra:
+                self.extra.append(('root', 'ptr'))
+            return ('p', 'root')
+        if k == 'BinaryOperator' and self.opaque_only(n):
+            g = 'guard%d' % (len([e for e in self.extra if e[1] == 'bool']) + 1)
+            self.extra.append((g, 'bool'))
+            self.guards = getattr(self, 'guards', []) + [g]
+            return ('p', g)
         if k == 'MemberExpr':
             if not n.get('isArrow') or n['name'] not in FIELDS:
                 raise Unsupported('member %s in %s' % (n.get('name'), self.name))
@@ -202,6 +218,23 @@ class Fn:
                 out.append(s)
         return out
 
+    def pure_opaque(self, n):
+        k = n.get('kind')
+        if k == 'DeclRefExpr':
+            return n['referencedDecl']['name'] in self.opaque
+        if k in ('MemberExpr', 'CallExpr'):
+            return False
+        return all(self.pure_opaque(c) for c in n.get('inner', []))
+
+    def opaque_only(self, n):
+        """an expression built from non-node parameters and literals only (no loads, no calls, no locals)"""
+        return self.pure_opaque(n) and self.mentions_opaque(n)
+
+    def mentions_opaque(self, n):
+        if n.get('kind') == 'DeclRefExpr':
+            return n['referencedDecl']['name'] in self.opaque
+        return any(self.mentions_opaque(c) for c in n.get('inner', []))
+
     def has_call(self, n):
         return n.get('kind') == 'CallExpr' or any(self.has_call(c) for c in n.get('inner', []))
 
@@ -243,10 +276,15 @@ class Fn:
         s, rest = stmts[0], stmts[1:]
         k = s.get('kind')
         if k == 'ReturnStmt':
-            return self.mon(self.tr(s['inner'][0]))
+            if self.retfmt == 'ret %s':
+                return self.mon(self.tr(s['inner'][0]))
+            return self.mon(self.bind(self.tr(s['inner'][0]), lambda v: ('m', self.retfmt % v)))
         if k == 'DeclStmt':
             txt = None
             decls = s['inner']
+            if len(decls) == 1 and decls[0].get('kind') == 'VarDecl' and not decls[0].get('inner') and 'qtreetbl_obj_t *' in decls[0]['type']['qualType']:
+                self.locals.add(decls[0]['name'])
+                return 'let %s := null in\n  %s' % (decls[0]['name'], self.block(rest, tail))
             if len(decls) != 1 or decls[0].get('kind') != 'VarDecl' or not decls[0].get('inner'):
                 raise Unsupported('declaration without initialiser in %s' % self.name)
             v = decls[0]['name']
@@ -312,6 +350,27 @@ class Fn:
         if k == 'ForStmt':
             # for (init; cond; step) body  with empty init and body: a fuelled loop over the assigned locals
             init, _, cond, step, body = (s['inner'] + [None] * 5)[:5]
+            if init and init.get('kind'):
+                s2 = dict(s); s2['inner'] = [{}] + s['inner'][1:]
+                return self.block([init, s2] + rest, tail)
+            if body and self.flat([body]):
+                if step and step.get('kind'):
+                    raise Unsupported('for statement with both a step and a body in %s' % self.name)
+                vs = sorted(self.assigned(body, set()) & self.locals)
+                if len(vs) != 1:
+                    raise Unsupported('loop body assigning %d node locals in %s' % (len(vs), self.name))
+                v = vs[0]
+                lname = 'c_%s_loop%d' % (self.name, len(self.loops) + 1)
+                saved_fmt, saved_locals, saved_ints = self.retfmt, set(self.locals), set(self.ints)
+                self.retfmt = 'ret (inr %s)'
+                c = self.tr(cond)
+                bd = self.block([body], '%s fuel %s' % (lname, v))
+                self.retfmt, self.locals, self.ints = saved_fmt, saved_locals, saved_ints
+                loop = ('Fixpoint %s (fuel : nat) (%s : ptr) : M (ptr + ptr) :=\n  match fuel with O => nofuel | S fuel =>\n  %s end.\n'
+                        % (lname, v, self.mon(self.bind(c, lambda x: ('m', 'if %s then (%s) else ret (inl %s)' % (x, bd, v))))))
+                self.loops.append(loop)
+                self.uses_fuel = True
+                return 'bnd (%s fuel %s) (fun r => match r with inr v => %s | inl %s =>\n  %s end)' % (lname, v, self.retfmt % 'v', v, self.block(rest, tail))
             if (init and init.get('kind')) or (body and body.get('kind') not in ('NullStmt',) and self.flat([body])):
                 raise Unsupported('for statement with an initialiser or a body in %s' % self.name)
             vs = sorted(self.assigned(step, set()))
@@ -331,6 +390,7 @@ class Fn:
     def emit(self):
         body = self.block(self.body.get('inner', []), None)
         ps = ' '.join('(%s : ptr)' % p for p in self.params)
+        ps = (ps + ' ' + ' '.join('(%s : %s)' % e for e in self.extra)).strip()
         if self.recursive:
             return ''.join(self.loops) + 'Fixpoint c_%s (fuel : nat) %s : M %s :=\n  match fuel with O => nofuel | S fuel =>\n  %s end.\n' % (
                 self.name, ps, 'ptr' if self.ret_ptr else 'bool', body)
